@@ -830,7 +830,14 @@ def desugar(rec, prog, stats):
             # block nb: payload extracted, call f
             pre = [{"k": "assign", "place": {"local": pin, "proj": []},
                     "rv": {"k": "use", "op": {"k": "move", "place": {"local": rl, "proj": [{"k": "downcast", "variant": hit[0], "name": hit[1]}, {"k": "field", "i": 0, "ty": pay_in}]}}}, "line": line}]
-            if f_["k"] == "const" and f_.get("ty", {}).get("k") == "fndef":
+            if f_["k"] == "const" and f_.get("ty", {}).get("k") == "fndef" and _variant_ctor(prog, f_["ty"]) is not None:
+                # r.map(Enum::Variant): the mapped function is a tuple-variant constructor - an aggregate, not a call
+                apath_, vi_, vname_, aargs_ = _variant_ctor(prog, f_["ty"])
+                pre.append({"k": "assign", "place": {"local": pout, "proj": []},
+                            "rv": {"k": "aggregate", "agg": "adt", "path": apath_, "variant": vi_, "vname": vname_, "args": aargs_, "is_enum": True,
+                                   "ops": [{"k": "move", "place": {"local": pin, "proj": []}}]}, "line": line})
+                callt = {"k": "goto", "target": nb + 1}
+            elif f_["k"] == "const" and f_.get("ty", {}).get("k") == "fndef":
                 fpath = resolve_fn_item(prog, f_["ty"])
                 callt = {"k": "call", "callee": f_["ty"]["path"], "resolved": fpath, "cargs": f_["ty"].get("args", []), "rargs": f_["ty"].get("args", []),
                          "args": [{"k": "move", "place": {"local": pin, "proj": []}}], "dest": {"local": pout, "proj": []}, "target": nb + 1, "line": line}
@@ -1069,6 +1076,76 @@ def desugar(rec, prog, stats):
                 rec["blocks"].append({"stmts": [], "term": {"k": "unreachable"}})
                 rec["_okor_plain"] = rec.get("_okor_plain", 0) + 1
                 stats.setdefault(rec["path"], []).append("desugar:ok_or")
+                changed = True
+                continue
+        if c == "core::option::Option::<core::result::Result<T, E>>::transpose" and len(t["args"]) == 1 and not t["dest"]["proj"] \
+                and t["args"][0]["k"] in ("move", "copy") and not t["args"][0]["place"]["proj"]:
+            # o.transpose()  ->  match o { Some(Ok(v)) => Ok(Some(v)), Some(Err(e)) => Err(e), None => Ok(None) }
+            ol = t["args"][0]["place"]["local"]
+            oty = rec["locals"][ol]
+            dty = rec["locals"][t["dest"]["local"]]
+            if oty.get("k") == "adt" and oty.get("args") and oty["args"][0].get("path") == "core::result::Result" and dty.get("k") == "adt" and len(dty.get("args") or []) == 2:
+                rty = oty["args"][0]
+                vty, ety = rty["args"]
+                opt_v = dty["args"][0]
+                line = t.get("line")
+                isz = {"k": "int", "bits": 64, "name": "isize"}
+                n = len(rec["locals"])
+                rec["locals"].extend([isz, isz, opt_v])
+                d1, d2, tmp = n, n + 1, n + 2
+                nb = len(rec["blocks"])
+                SOME, OKB, ERRB, NONE, UNR = nb, nb + 1, nb + 2, nb + 3, nb + 4
+                inner = [{"k": "downcast", "variant": 1, "name": "Some"}, {"k": "field", "i": 0, "ty": rty}]
+                blk["stmts"] = list(blk["stmts"]) + [{"k": "assign", "place": {"local": d1, "proj": []}, "rv": {"k": "discr", "place": {"local": ol, "proj": []}}, "line": line}]
+                blk["term"] = {"k": "switch", "discr": {"k": "move", "place": {"local": d1, "proj": []}}, "dty": isz, "arms": [[1, SOME], [0, NONE]], "otherwise": UNR, "line": line}
+                rec["blocks"].append({"stmts": [{"k": "assign", "place": {"local": d2, "proj": []}, "rv": {"k": "discr", "place": {"local": ol, "proj": inner}}, "line": line}],
+                                      "term": {"k": "switch", "discr": {"k": "move", "place": {"local": d2, "proj": []}}, "dty": isz, "arms": [[0, OKB], [1, ERRB]], "otherwise": UNR, "line": line}})
+                rec["blocks"].append({"stmts": [
+                    {"k": "assign", "place": {"local": tmp, "proj": []},
+                     "rv": {"k": "aggregate", "agg": "adt", "path": "core::option::Option", "variant": 1, "vname": "Some", "args": opt_v.get("args", []), "is_enum": True,
+                            "ops": [{"k": "move", "place": {"local": ol, "proj": inner + [{"k": "downcast", "variant": 0, "name": "Ok"}, {"k": "field", "i": 0, "ty": vty}]}}]}, "line": line},
+                    {"k": "assign", "place": copy.deepcopy(t["dest"]),
+                     "rv": {"k": "aggregate", "agg": "adt", "path": "core::result::Result", "variant": 0, "vname": "Ok", "args": dty["args"], "is_enum": True,
+                            "ops": [{"k": "move", "place": {"local": tmp, "proj": []}}]}, "line": line}], "term": {"k": "goto", "target": t["target"]}})
+                rec["blocks"].append({"stmts": [
+                    {"k": "assign", "place": copy.deepcopy(t["dest"]),
+                     "rv": {"k": "aggregate", "agg": "adt", "path": "core::result::Result", "variant": 1, "vname": "Err", "args": dty["args"], "is_enum": True,
+                            "ops": [{"k": "move", "place": {"local": ol, "proj": inner + [{"k": "downcast", "variant": 1, "name": "Err"}, {"k": "field", "i": 0, "ty": ety}]}}]}, "line": line}],
+                    "term": {"k": "goto", "target": t["target"]}})
+                rec["blocks"].append({"stmts": [
+                    {"k": "assign", "place": {"local": tmp, "proj": []},
+                     "rv": {"k": "aggregate", "agg": "adt", "path": "core::option::Option", "variant": 0, "vname": "None", "args": opt_v.get("args", []), "is_enum": True, "ops": []}, "line": line},
+                    {"k": "assign", "place": copy.deepcopy(t["dest"]),
+                     "rv": {"k": "aggregate", "agg": "adt", "path": "core::result::Result", "variant": 0, "vname": "Ok", "args": dty["args"], "is_enum": True,
+                            "ops": [{"k": "move", "place": {"local": tmp, "proj": []}}]}, "line": line}], "term": {"k": "goto", "target": t["target"]}})
+                rec["blocks"].append({"stmts": [], "term": {"k": "unreachable"}})
+                stats.setdefault(rec["path"], []).append("desugar:transpose")
+                changed = True
+                continue
+        if c in ("core::result::Result::<T, E>::unwrap_or", "core::option::Option::<T>::unwrap_or") and len(t["args"]) == 2 and not t["dest"]["proj"] \
+                and t["args"][0]["k"] in ("move", "copy") and not t["args"][0]["place"]["proj"]:
+            # r.unwrap_or(d)  ->  match r { Ok(v) | Some(v) => v, _ => d }
+            rl = t["args"][0]["place"]["local"]
+            rty = rec["locals"][rl]
+            is_opt = c.startswith("core::option")
+            if rty.get("k") == "adt" and rty.get("args"):
+                hit = (1, "Some") if is_opt else (0, "Ok")
+                oth = 0 if is_opt else 1
+                line = t.get("line")
+                isz = {"k": "int", "bits": 64, "name": "isize"}
+                n = len(rec["locals"])
+                rec["locals"].append(isz)
+                nb = len(rec["blocks"])
+                blk["stmts"] = list(blk["stmts"]) + [{"k": "assign", "place": {"local": n, "proj": []}, "rv": {"k": "discr", "place": {"local": rl, "proj": []}}, "line": line}]
+                blk["term"] = {"k": "switch", "discr": {"k": "move", "place": {"local": n, "proj": []}}, "dty": isz, "arms": [[hit[0], nb], [oth, nb + 1]], "otherwise": nb + 2, "line": line}
+                rec["blocks"].append({"stmts": [{"k": "assign", "place": copy.deepcopy(t["dest"]),
+                                                 "rv": {"k": "use", "op": {"k": "move", "place": {"local": rl, "proj": [{"k": "downcast", "variant": hit[0], "name": hit[1]},
+                                                                                                                      {"k": "field", "i": 0, "ty": rty["args"][0]}]}}}, "line": line}],
+                                      "term": {"k": "goto", "target": t["target"]}})
+                rec["blocks"].append({"stmts": [{"k": "assign", "place": copy.deepcopy(t["dest"]), "rv": {"k": "use", "op": copy.deepcopy(t["args"][1])}, "line": line}],
+                                      "term": {"k": "goto", "target": t["target"]}})
+                rec["blocks"].append({"stmts": [], "term": {"k": "unreachable"}})
+                stats.setdefault(rec["path"], []).append("desugar:unwrap_or")
                 changed = True
                 continue
         if c == "core::result::Result::<T, E>::ok" and len(t["args"]) == 1 and not t["dest"]["proj"] and t["args"][0]["k"] in ("move", "copy") \
@@ -1471,8 +1548,13 @@ def fold_try(rec, stats):
         x = a["place"]["local"]
         xty = rec["locals"][x]
         defs = _all_defs(rec, x)
-        if not defs or not all(d[0] == "stmt" and not d[3]["place"]["proj"] and d[3]["rv"]["k"] == "aggregate" and d[3]["rv"].get("vname") in ("Ok", "Err")
-                               for d in defs):
+        def _agg(d):
+            return d[0] == "stmt" and not d[3]["place"]["proj"] and d[3]["rv"]["k"] == "aggregate" and d[3]["rv"].get("vname") in ("Ok", "Err")
+
+        def _resid(d):
+            # the inlined helper's own `?`: its early return is `x = from_residual(..)`, always an Err
+            return d[0] == "call" and not d[3]["dest"]["proj"] and (d[3].get("resolved") or d[3].get("callee") or "").endswith("::from_residual")
+        if not defs or not any(_agg(d) for d in defs) or not all(_agg(d) or _resid(d) for d in defs):
             continue
         if not (xty.get("k") == "adt" and len(xty.get("args") or []) == 2):
             continue
@@ -1608,6 +1690,126 @@ def thread_jumps(rec, stats):
             pb["term"] = {"k": "goto", "target": tgt}
             stats.setdefault(rec["path"], []).append("thread")
             changed = True
+    return changed
+
+
+def thread_shapes(rec, stats, budget=40):
+    """Forward propagation of the shape of values built in place (Ok(Some(e)), Continue(..)): from a block that ends in `goto`, the straight-line
+    successors are executed symbolically; a `switch discr(x)` whose x has a known variant on this path is resolved, and the statements on the way
+    are appended to the block (tail duplication), so that the path no longer passes through merge points where the shape is forgotten.
+    Only blocks created by this pre-pass (index >= rec['_orig_blocks']) and their continuation are touched."""
+    changed = False
+    nb0 = rec.get("_orig_blocks", len(rec["blocks"]))
+
+    def shape_of_operand(env, o):
+        if o.get("k") not in ("move", "copy"):
+            return None
+        sh = env.get(o["place"]["local"])
+        for pr in o["place"]["proj"]:
+            if sh is None:
+                return None
+            if pr["k"] == "downcast":
+                if sh[0] != "agg" or sh[1] != pr.get("variant"):
+                    return None
+            elif pr["k"] == "field":
+                if sh[0] != "agg" or pr["i"] >= len(sh[2]):
+                    return None
+                sh = sh[2][pr["i"]]
+            else:
+                return None
+        return sh
+
+    # a `?`-style early return of an inlined helper (`x = from_residual(..)`) always yields an Err: seed that shape on a fresh landing block
+    seeds = {}
+    for P, pb in enumerate(list(rec["blocks"])):
+        t = pb["term"]
+        if t["k"] == "call" and t.get("target") is not None and not t["dest"]["proj"] and t["dest"]["local"] != 0 \
+                and (t.get("resolved") or t.get("callee") or "").endswith("::from_residual") and not pb.get("cleanup") and not t.get("_landing"):
+            ni = len(rec["blocks"])
+            rec["blocks"].append({"stmts": [], "term": {"k": "goto", "target": t["target"]}})
+            t["target"] = ni
+            t["_landing"] = True
+            seeds[ni] = {t["dest"]["local"]: ("agg", 1, [None])}
+    for P, pb in enumerate(rec["blocks"]):
+        if budget <= 0:
+            break
+        if pb["term"]["k"] != "goto" or pb.get("cleanup"):
+            continue
+        # start: shapes established by P's own statements
+        env = dict(seeds.get(P, {}))
+        def run(stmts):
+            for st in stmts:
+                if st["k"] != "assign":
+                    continue
+                pl, rv = st["place"], st["rv"]
+                if pl["proj"]:
+                    env.pop(pl["local"], None)
+                    continue
+                if rv["k"] == "aggregate" and rv.get("agg") == "adt" and rv.get("is_enum") and isinstance(rv.get("variant"), int):
+                    env[pl["local"]] = ("agg", rv["variant"], [shape_of_operand(env, o) for o in rv.get("ops", [])])
+                elif rv["k"] == "use":
+                    sh = shape_of_operand(env, rv["op"])
+                    if sh is not None:
+                        env[pl["local"]] = sh
+                    else:
+                        env.pop(pl["local"], None)
+                elif rv["k"] in ("ref", "rawptr") and rv.get("mut"):
+                    env.pop(rv["place"]["local"], None)
+                    env.pop(pl["local"], None)
+                else:
+                    env.pop(pl["local"], None)
+        run(pb["stmts"])
+        if not any(v and v[0] == "agg" for v in env.values()):
+            continue
+        appended = []
+        tgt = pb["term"]["target"]
+        visited = set()
+        progressed = False
+        for _ in range(10):
+            if tgt in visited or tgt == P:
+                break
+            visited.add(tgt)
+            jb = rec["blocks"][tgt]
+            if jb.get("cleanup"):
+                break
+            t = jb["term"]
+            if t["k"] == "goto":
+                # only worth continuing if something ahead may be resolved; duplicate J's statements
+                save_env = dict(env)
+                run(jb["stmts"])
+                appended.append(copy.deepcopy(jb["stmts"]))
+                tgt = t["target"]
+                continue
+            if t["k"] == "switch" and t["discr"]["k"] in ("move", "copy") and not t["discr"]["place"]["proj"]:
+                run(jb["stmts"])
+                d = t["discr"]["place"]["local"]
+                src = [st for st in jb["stmts"] if st["k"] == "assign" and st["place"] == {"local": d, "proj": []}]
+                k = None
+                if len(src) == 1 and src[0]["rv"]["k"] == "discr":
+                    sh = shape_of_operand(env, {"k": "copy", "place": src[0]["rv"]["place"]})
+                    if sh is not None and sh[0] == "agg":
+                        k = sh[1]
+                if k is None:
+                    break
+                appended.append(copy.deepcopy(jb["stmts"]))
+                nxt = None
+                for v_, tb in t["arms"]:
+                    if v_ == k:
+                        nxt = tb
+                if nxt is None:
+                    nxt = t["otherwise"]
+                tgt = nxt
+                progressed = True
+                # commit what has been gathered so far
+                for stl in appended:
+                    pb["stmts"] = list(pb["stmts"]) + stl
+                appended = []
+                pb["term"] = {"k": "goto", "target": tgt}
+                changed = True
+                budget -= 1
+                stats.setdefault(rec["path"], []).append("thread:shape")
+                continue
+            break
     return changed
 
 
@@ -1825,6 +2027,10 @@ def apply(prog):
         for _ in range(6):
             if not thread_jumps(recs[p], stats):
                 break
+        if any(x.startswith("fold:try") for x in stats.get(p, [])):
+            for _ in range(3):
+                if not thread_shapes(recs[p], stats):
+                    break
         fold_from_residual(recs[p], stats)
         recs[p].pop("_folded_try", None)
         forward_return_temp(recs[p], stats)
